@@ -46,9 +46,12 @@ func main() {
 			"function values are compared as 'a function' plus behaviour on integer probes",
 			"U1 (closure reads a parameter of a returned activation) and U2 (partial application of a variadic function) disagreements are reported as unsettled outcomes, not violations",
 		},
-		CaseTimeout: 60e9,
-		WorkerEnv:   []string{"GOMAXPROCS=2", "GOGC=300"},
-		Build:       build,
+		CaseTimeout: 120e9,
+		// sized for about 25 s (quick) / 7 min (thorough) on 16 idle cores; the deadlines leave room for a loaded machine
+		QuickDeadline:    4 * 60e9,
+		ThoroughDeadline: 25 * 60e9,
+		WorkerEnv:        []string{"GOMAXPROCS=2", "GOGC=300"},
+		Build:            build,
 	})
 }
 
